@@ -82,11 +82,15 @@ class AbsBox:           # abstract collection: symbolic length, elements of an a
     def clone(self):
         b = AbsBox(self.kind, self.length, self.elem_ann, self.reads)
         b.version = getattr(self, "version", 0)
+        if hasattr(self, "seq_id"):
+            b.seq_id = self.seq_id
         if hasattr(self, "elem_inv"):
             b.elem_inv = self.elem_inv
             b.owner = getattr(self, "owner", None)
         if hasattr(self, "items"):
             b.items = list(self.items)
+        if hasattr(self, "prov"):
+            b.prov = self.prov
         return b
 
 
